@@ -635,10 +635,16 @@ func runDGamma(c *mon.Case) {
 	rates := checkDiscreteGamma(c, alpha, k)
 	if rates != nil {
 		c.Note("rates %s", short(rates))
-		again := models.DiscreteGamma(alpha, k)
-		if !sameBits(rates, again) {
-			c.Failf("DiscreteGamma:not-deterministic", "two calls with alpha=%v ncat=%d differ: %v / %v", alpha, k, rates, again)
+		// the caller owns what it received: it scales its rates in place (by a branch length, say), then asks again
+		first := append([]float64{}, rates...)
+		for i := range rates {
+			rates[i] *= 0.05
 		}
+		again := models.DiscreteGamma(alpha, k)
+		if !sameBits(first, again) {
+			c.Failf("DiscreteGamma:not-deterministic", "two calls with alpha=%v ncat=%d differ (the first result was scaled in place by its caller in between): %v / %v", alpha, k, first, again)
+		}
+		rates = first
 	}
 	c.NonTrivial(fmt.Sprint(alpha), fmt.Sprint(k))
 }
